@@ -6,8 +6,8 @@
 unsigned long nondet_u64(void);
 unsigned long *g_cnt;                 /* the counter of the latch under verification */
 unsigned long g_others_pending;       /* what the other threads still have to count down */
-unsigned long g_my_sets, g_other_sets; struct Promise *g_set_on; unsigned long g_set_value; _Bool g_mine_done;
-static void vf_havoc_ghosts(void) { g_others_pending = nondet_u64(); g_my_sets = 0; g_other_sets = 0; g_set_on = 0; g_mine_done = 0; }
+unsigned long g_my_sets, g_other_sets; struct Promise *g_set_on; unsigned long g_set_value; _Bool g_mine_done, g_promise_built;
+static void vf_havoc_ghosts(void) { g_others_pending = nondet_u64(); g_my_sets = 0; g_other_sets = 0; g_set_on = 0; g_mine_done = 0; g_promise_built = 0; }
 static void env_step(void) {
   unsigned long d = nondet_u64();
   __CPROVER_assume(d <= g_others_pending);
@@ -24,7 +24,7 @@ unsigned long vf_atomic_fetch_sub_u64(unsigned long *p, unsigned long v, int ord
 }
 unsigned long vf_atomic_load_u64(unsigned long *p, int order, int site) { if (p == g_cnt) env_step(); return *p; }   /* not used by the pinned code */
 void Promise_set_value__int(struct Promise *p, int *v) {
-  __CPROVER_assert(g_mine_done && *g_cnt == 0, "GUAR C08.latch the future is notified only once the counter is at zero");
+  __CPROVER_assert(*g_cnt == 0 && (g_mine_done || g_promise_built), "GUAR C08.latch the future is notified only once the counter is at zero");
   g_my_sets++; g_set_on = p; g_set_value = (unsigned long)*v;
 }
 void Latch_count_down(struct Latch *self, unsigned long down)
@@ -36,5 +36,17 @@ __CPROVER_assigns(*g_cnt, g_others_pending, g_my_sets, g_other_sets, g_set_on, g
 __CPROVER_ensures(g_mine_done && *g_cnt == g_others_pending)                                   /* my amount is off the counter, once */
 __CPROVER_ensures(g_my_sets + g_other_sets == (*g_cnt == 0 ? 1 : 0))                            /* one notification iff the counter reached zero */
 __CPROVER_ensures(g_my_sets == 1 ==> (g_set_on == &self->_promise && g_other_sets == 0))
+;
+/* constructor: the counter starts at `count`; a latch of count 0 is born finished (the future is notified at once, by the constructor,
+ * exactly once); any other count notifies nothing.  No environment: the object is not shared before the constructor returns. */
+void Promise_ctor__void(struct Promise *p) { g_promise_built = 1; }
+void Latch_ctor__u64(struct Latch *self, unsigned long count)
+__CPROVER_requires(__CPROVER_is_fresh(self, sizeof(*self)))
+__CPROVER_requires(__CPROVER_pointer_equals(g_cnt, (unsigned long *)&self->_count))
+__CPROVER_requires(g_others_pending == 0 && g_my_sets == 0 && g_other_sets == 0 && !g_promise_built)
+__CPROVER_assigns(*g_cnt, g_my_sets, g_set_on, g_set_value, g_promise_built, g_others_pending, g_other_sets, g_mine_done)
+__CPROVER_ensures(*g_cnt == count && g_promise_built && g_other_sets == 0)
+__CPROVER_ensures(g_my_sets == (count == 0 ? 1 : 0))
+__CPROVER_ensures(g_my_sets == 1 ==> g_set_on == &self->_promise)
 ;
 #endif
